@@ -512,12 +512,25 @@ def readout_loops(repo: Path) -> list[dict]:
         tree = parse(repo, rel)
         fns = _functions(tree)
         inner = {id(x) for _, fn in fns for x in ast.walk(fn) if x is not fn and isinstance(x, (ast.FunctionDef, ast.AsyncFunctionDef, ast.Lambda))}
+        # a block around detector.empty extracted into a module-level helper is read as if it were still in place
+        from .c17_norm import inline_calls
+
+        bodies, inlined = {}, {}
         for qn, fn in fns:
-            own_calls = [x for x in ast.walk(fn) if _is_det_empty(x)]
+            body, counts = inline_calls(tree, fn, lambda h: _contains(h, _is_det_empty))
+            bodies[qn] = body
+            for h, c in counts.items():
+                inlined[h] = inlined.get(h, 0) + c
+        for qn, fn in fns:
+            whole = ast.Module(body=bodies[qn], type_ignores=[])
+            own_calls = [x for x in ast.walk(whole) if _is_det_empty(x)]
             if not own_calls:
                 continue
+            if qn in inlined and sum(1 for x in ast.walk(tree) if isinstance(x, ast.Name) and x.id == qn) == inlined[qn] \
+                    and not any(qn in g.read_text() for g in base.rglob("*.py") if g != f):
+                continue          # lives on only through its (inlined) call sites
             # calls that belong to a nested function are that function's
-            nested_calls = {id(x) for ch in ast.walk(fn) if ch is not fn and id(ch) in inner for x in ast.walk(ch)
+            nested_calls = {id(x) for ch in ast.walk(whole) if id(ch) in inner for x in ast.walk(ch)
                             if _is_det_empty(x)}
             if all(id(x) in nested_calls for x in own_calls):
                 continue
@@ -526,7 +539,7 @@ def readout_loops(repo: Path) -> list[dict]:
             res = {}
             for nd in (True, False):
                 it = _LoopInterp(rel, qn, nd)
-                it.run(body_no_doc(fn), "pre")
+                it.run(bodies[qn], "pre")
                 if it.loops != 1:
                     _err(rel, fn, f"{qn} calls detector.empty but not from a readout loop")
                 if it.post:
